@@ -6,7 +6,7 @@ from ..core import AnalysisError, norm, walk_no_nested, calls_in, Func
 
 META = {
     'design_ref': 'DESIGN.md §5 C11',
-    'technique': 'effect analysis over the class call graph for the changed-flag discipline; shape-case abstract interpretation of remove / replace / append and of value references on symbolic token lists (eleven layouts, duplicates, after-edit state), compared at value level with a reference list model; regular-language checks for the two list tokenizers (coverage of every line by the whole function incl. special cases, group tiling, path-based emission of every group once in order, separator never inside a word); interpretation of the value-line wrapper on symbolic lines of every shape and position (no exception, conservation, comment classification, text handed to the list tokenizer) and of the view constructor on item-less token lists; CFG validate-before-commit rule for the write-back; frame rule (no persistent writes) on the read path of a list view; one-computation-per-memo-slot rule; line-primitive rule; write-back scenarios for a re-parse with two fields / two paragraphs and for a list without values; layouts that end on a comment line; the value factory interpreted with a model parser per list kind (one value exactly, else ValueError); removal through a value reference after the references were collected AND while the iterator stands at the reference (closures read the enclosing variables when they are called); deferred code (lambda, nested function) is not a call the accessor makes',
+    'technique': 'effect analysis over the class call graph for the changed-flag discipline; shape-case abstract interpretation of remove / replace / append and of value references on symbolic token lists (eleven layouts, duplicates, after-edit state), compared at value level with a reference list model; regular-language checks for the two list tokenizers (coverage of every line by the whole function incl. special cases, group tiling, path-based emission of every group once in order, separator never inside a word); interpretation of the value-line wrapper on symbolic lines of every shape and position (no exception, conservation, comment classification, text handed to the list tokenizer) and of the view constructor on item-less token lists; CFG validate-before-commit rule for the write-back; frame rule (no persistent writes) on the read path of a list view; one-computation-per-memo-slot rule; line-primitive rule; write-back scenarios for a re-parse with two fields / two paragraphs and for a list without values; layouts that end on a comment line; the value factory interpreted with a model parser per list kind (one value exactly, else ValueError); removal through a value reference after the references were collected AND while the iterator stands at the reference (closures read the enclosing variables when they are called); deferred code (lambda, nested function) is not a call the accessor makes; whole documents parsed by the interpreted parser, a list field opened through the interpreted interpret_as (comma and whitespace lists in ten layouts), read, closed unchanged and edited (append, remove, replace, assignment and removal through references): values as a split model gives them, the text untouched on a plain close, the edited list when the field is opened again, everything around the field byte for byte',
     'level_text': 'Static decision: every editing entry point marks the view as changed and nothing else does, so an unedited view never '
                   'touches the document; removing, replacing or appending a value (directly or through a reference) leaves exactly the '
                   'reference list of values in a well-formed token list, for layouts with and without leading blanks, separators, comment '
@@ -1251,6 +1251,108 @@ def r10_value_factory(rep, src):
     rep.analysed['paths'] += n
 
 
+def r11_views_end_to_end(rep, src, tier):
+    """the statement on whole documents: a document is parsed by the interpreted parser (sa.heap, the whole pipeline), a list field is
+    opened through the interpreted interpret_as(...) of its element -- the comma list and the whitespace list, in layouts with line
+    breaks, comment lines between the values, blanks around the separators, a trailing separator --, read, closed unchanged, and edited
+    (append, remove, replace, assignment and removal through a value reference; one and two steps).  The values read are the values of
+    a split model kept here; closing without an edit leaves the text byte for byte; after an edit the text before and behind the field
+    is byte for byte what it was, the document parses strictly, and the field opened again reads exactly the edited list."""
+    import itertools
+    import re as _re
+    from .. import heap as H
+    mod = src.mod(PM)
+    f = src.func(PM + ':parse_deb822_file')
+    rep.saw_func(f)
+
+    def world():
+        heap = H.Heap(mod, extra_modules=[src.mod(TK), src.mod('_deb822_repro._util'), src.mod('_util'), src.mod('_deb822_repro.formatter')],
+                      hooks={'sys.intern': lambda it, a, k: a[0], '_strI': lambda it, a, k: H.Key(a[0].lower(), a[0]) if isinstance(a[0], str) else a[0]})
+        heap.native_regex = True
+        return heap, H.Interp(heap)
+
+    def text_of(it, heap, doc):
+        m_ = mod.method(heap.objs[doc.name]['__class__'], 'convert_to_text')
+        t_ = it.call(H.Closure(m_.node, {}, doc, m_.cls), [])
+        return t_.concrete() if hasattr(t_, 'concrete') else t_
+
+    def run(text, kind, ops):
+        """-> (values read first, text afterwards) ; ops: list of source lines executed inside the with block"""
+        heap, it = world()
+        doc = it.call(H.Closure(f.node, {}, None, None), [heap.new_list(text.splitlines(True))], {})
+        env = {'doc': doc}
+        prog = ("p = next(iter(doc))\nkv = p.get_kvpair_element('List')\nwith kv.interpret_as(%s) as lst:\n    vals = list(lst)\n" % kind) + ''.join('    %s\n' % o_ for o_ in ops)
+        for st in ast.parse(prog).body:
+            it.exec(st, env, None)
+        v_ = env['vals']
+        vals = [x_.concrete() if hasattr(x_, 'concrete') else x_ for x_ in (heap.items(v_) if heap.is_list(v_) else it.seq(v_))]
+        return vals, text_of(it, heap, doc)
+    BEFORE, AFTER = '# head\nSource: x\n', 'Other: y z\n\nPackage: p\n'
+    FIELDS = [('LIST_COMMA_SEPARATED_INTERPRETATION', ',', [' a, b,\n# note\n c\n', ' a,b\n', '\n a ,\n b,\n', ' a,\n b,\n c,\n', ' only\n', ' a (>= 1), b [x y]\n']),
+              ('LIST_SPACE_SEPARATED_INTERPRETATION', None, [' amd64 i386\n', '\n amd64\n# c\n i386\n', '  one   two  \n three\n', ' single\n'])]
+
+    def split_model(rest, sep):
+        body = ''.join(l_ for l_ in rest.splitlines(True) if not l_.startswith('#'))
+        parts = body.split(sep) if sep else body.split()
+        return [_re.sub(r'\\s+', ' ', x_.strip()) if sep else x_ for x_ in parts if x_.strip()]
+    EDITS = [("lst.append('new')", lambda v: v + ['new']), ("lst.remove(vals[0])", lambda v: v[1:]), ("lst.replace(vals[-1], 'last')", lambda v: v[:-1] + ['last']),
+             ("refs = list(lst.iter_value_references()); refs[0].value = 'first'", lambda v: ['first'] + v[1:]),
+             ("refs = list(lst.iter_value_references()); refs[-1].remove()", lambda v: v[:-1])]
+    n, bad = 0, None
+    for kind, sep, rests in FIELDS:
+        for rest in rests:
+            text = BEFORE + 'List:' + rest + AFTER
+            want_vals = split_model(rest, sep)
+            k_ = rests.index(rest)
+            if tier == 'thorough':
+                steps = [[e_] for e_ in EDITS] + [list(p_) for p_ in itertools.permutations(EDITS, 2)]
+            else:
+                # (every edit on two or three layouts of each kind, a two-step history on the first layout)
+                steps = [[EDITS[k_ % 5]], [EDITS[(k_ + 2) % 5]]] + ([[EDITS[0], EDITS[1]], [EDITS[3], EDITS[2]]] if k_ == 0 else [])
+            for hist in [[]] + steps:
+                n += 1
+                vals_model = list(want_vals)
+                applicable = []
+                for src_line, fn_ in hist:
+                    if not vals_model and 'vals[' in src_line:
+                        continue
+                    if len(vals_model) == 1 and ('remove' in src_line):
+                        continue          # (a field must keep a value)
+                    applicable.append(src_line)
+                    vals_model = fn_(vals_model)
+                label = 'List:%r read as a %s list%s' % (rest, 'comma' if sep else 'whitespace', (', then ' + '; '.join(applicable)) if applicable else ', closed unchanged')
+                try:
+                    vals, after = run(text, kind, applicable)
+                except H.Raised as x:
+                    bad = bad or '%s: raises %s (line %d)' % (label, x.exc, x.lineno)
+                    continue
+                got_vals = [_re.sub(r'\\s+', ' ', x_) for x_ in vals] if sep else vals
+                if got_vals != want_vals:
+                    bad = bad or '%s: the values are %r; the text splits into %r' % (label, vals, want_vals)
+                    continue
+                if not applicable:
+                    if after != text:
+                        bad = bad or '%s: the document text changes to %r' % (label, after)
+                    continue
+                if not (after.startswith(BEFORE + 'List:') and after.endswith(AFTER)):
+                    bad = bad or '%s: the text in front of or behind the field is not what it was: %r' % (label, after)
+                    continue
+                try:
+                    again, _t = run(after, kind, [])
+                except H.Raised as x:
+                    bad = bad or '%s: the document %r cannot be read again (%s)' % (label, after, x.exc)
+                    continue
+                again = [_re.sub(r'\\s+', ' ', x_) for x_ in again] if sep else again
+                if again != vals_model:
+                    bad = bad or '%s: the field now reads %r (text %r); the edited list is %r' % (label, again, after[len(BEFORE):len(after) - len(AFTER)], vals_model)
+    rep.analysed['paths'] += n
+    what = 'list views of a parsed document: values as split, unchanged on a plain close, the edited list after edits, nothing else touched (interpreted documents)'
+    if bad:
+        rep.fail('C11.R11', f.site, what, bad, where=f.where)
+    else:
+        rep.ok('C11.R11', f.site, what, '%d histories on %d field layouts' % (n, sum(len(r_) for _k, _s, r_ in FIELDS)))
+
+
 def check(src, rep, tier):
     rep.explanation = ('C11: (R1) call-graph effect analysis in Deb822ParsedTokenList: methods that (transitively) mutate the token list must '
                        '(transitively) store _changed = True, read accessors must do neither, _update_field is called only from __exit__ under '
@@ -1282,5 +1384,7 @@ def check(src, rep, tier):
     rep.guard('C11.R8', r8b_value_texts, src)
     rep.need('C11.R7', 15)
     rep.guard('C11.R7', r7_opening_a_view, src)
+    rep.need('C11.R11', 1)
+    rep.guard('C11.R11', r11_views_end_to_end, src, tier)
     rep.need('C11.R10', 2)
     rep.guard('C11.R10', r10_value_factory, src)
